@@ -149,8 +149,16 @@ ARGS = ["", "0", "1", "-1", "2147483648", "9223372036854775807", "-9223372036854
         "z80", "68000", "a5:nothing", "[3]5", "[70000]1", "3 dup (1)", "3 dup (", "dup", "1.5", "-1.5e-320", "\"a\",1",
         "upstring(\"x\")", "val(\"1/0\")", "sqrt(-1)", "ln(0)", "1=>", "a\tb", ";", "\x80\xff", "x\\x", "%101", "0ffh",
         "@17", "$$$", "charfromstr(\"a\",5)", "substr(\"\",0,0)", "strstr(\"\",\"\")", "cpu", "mompass", "moment",
-        "1 2", "\"\\0\"", "\"\\i\"", "\"\\1000\"", "\"\\x1000\""]
+        "1 2", "\"\\0\"", "\"\\i\"", "\"\\1000\"", "\"\\x1000\"", "(1<<63)/(0-1)", "(1<<63)#(0-1)", "1<<63", "0-(1<<63)"]
 CPUS = ["z80", "68000", "8051", "6502", "320c30", "16c84"]
+# construct interplay (enumerated completely): opener / inner statement / closer / stray statement
+OPENERS = [("m1\tmacro", "\tendm\n\tm1"), ("\tirp x,1,2", "\tendm"), ("\tirpc x,\"ab\"", "\tendm"), ("\tirpn 1,x,1,2", "\tendm"),
+           ("\trept 2", "\tendm"), ("\tif 1", "\tendif"), ("\tif 0", "\tendif"), ("\tswitch 1\n\tcase 1", "\tendcase"),
+           ("s1\tstruct", "s1\tendstruct"), ("u1\tunion", "u1\tendunion"), ("\tsection sec", "\tendsection"), ("\tsave", "\trestore"),
+           ("\tphase 100", "\tdephase"), ("\texpect 1200", "\tendexpect"), ("\twhile 0", "\tendm"), ("f1\tfunction x,x+1", "")]
+INNERS = ["\texitm", "\tshift", "\trestore", "\tsave", "\tdephase", "\tendm", "\tendif", "\tendstruct", "\tendsection", "\tendcase",
+          "\tendexpect", "\tend", "\telse", "\tcase 2", "\telsecase", "\tdb 1", "lab:", "\torg 5", "\tcpu 6502", "\tinclude \"x.inc\"",
+          "\tsegment data", "\tpopv s,lab", "\tpushv s,lab", "\tglobal lab", "\tpublic lab:parent", "\tforward lab", "\terror \"e\"", "\tnop"]
 CLOSERS = ["", "\tendm\n", "\tendif\n", "\tends\n", "\tendsection\n", "\tendcase\n", "\tendm\n\tendm\n"]
 
 
@@ -255,6 +263,10 @@ def plan(tier, seed):
     n7 = 60000 if thorough else 3000
     for i in range(0, n7, 100):
         cases.append({"gen": "vocabn", "seed": mix(seed, "vn", i), "n": 100})
+    # construct interplay: opener x inner x (closed | not closed) x stray statement after it, on two CPUs
+    total = len(OPENERS) * len(INNERS) * len(INNERS)
+    for i in range(0, total, 400):
+        cases.append({"gen": "nest", "lo": i, "hi": min(total, i + 400)})
     # E8 raw bytes
     n8 = 20000 if thorough else 1000
     for i in range(0, n8, 100):
@@ -584,6 +596,15 @@ def run_case(sim, case):
             last = src
             run_one(sim, acc, "asl", sc_asl(src, swarm_opts(rng)), "E7 multi", "vocabulary")
         acc.sample = {"space": "E7 multi", "example": last}
+    elif g == "nest":
+        for idx in range(case["lo"], case["hi"]):
+            o = idx % len(OPENERS)
+            i1 = (idx // len(OPENERS)) % len(INNERS)
+            i2 = idx // (len(OPENERS) * len(INNERS))
+            opener, closer = OPENERS[o]
+            src = "\tcpu %s\n%s\n%s\n%s\n%s\n\tnop\n" % ("z80" if idx & 1 else "68000", opener, INNERS[i1], closer if (idx >> 1) & 1 else "", INNERS[i2])
+            run_one(sim, acc, "asl", sc_asl(src, ["-U"] if idx % 7 == 0 else []), "nest %d" % idx, "construct-interplay")
+        acc.sample = {"space": "construct interplay", "example": src}
     elif g == "raw":
         rng = Rng(case["seed"])
         for _ in range(case["n"]):
